@@ -26,6 +26,7 @@ type busloadStream struct{ baseStream }
 func init() { register(busloadStream{}) }
 
 func (busloadStream) Name() string    { return "busload" }
+func (busloadStream) Parallel() bool  { return true } // no shared state: cases run on all cores
 func (busloadStream) Props() []string { return []string{"C17"} }
 
 func (busloadStream) Gen(r *rand.Rand, tier string, idx int) []string {
